@@ -29,7 +29,7 @@ ASSUMPTIONS = [
 ]
 PROBES = ["oid_128_arcs", "subid_2_32", "str_2000", "rid_1_octet", "rid_2_octets", "rid_3_octets", "rid_4_octets",
           "community_empty", "community_64", "context_name", "configured_engine_id", "engine_id_32", "v1", "v3_priv",
-          "walk_followup", "c64_set", "reconfigured"]
+          "walk_followup", "c64_set", "reconfigured", "read_then_write", "context_changed"]
 shrink_lists = [("ops",)]
 ALL_OPS = ["get", "multiget", "getnext", "multigetnext", "walk", "multiwalk", "set", "multiset", "bulkget", "bulkwalk",
            "table", "bulktable"]
@@ -107,6 +107,12 @@ def plan_for(tier: str, seed: int, i: int) -> dict:
             ops.append({"op": k, "oid": base + (1,)})
         else:
             ops.append({"op": k, "oid": base, "bulk": rng.choice([1, 5, 50])})
+    xrng = rng_for(seed, ID, tier + ":x", i)
+    if xrng.random() < 0.25:
+        # read-modify-write: a value object RETURNED by the client is handed back to it in a SET
+        src_candidates = [o for o, v in sorted(mib.items()) if not (version == "v1" and v[0] == "c64")]
+        if src_candidates:
+            ops.insert(xrng.randrange(0, len(ops) + 1), {"op": "copy", "from": xrng.choice(src_candidates), "to": _gen_oid(xrng, base)})
     protos = [proto]
     if rng.random() < 0.35:
         # the configuration in force changes between operations: every datagram must follow the one in force when sent
@@ -127,6 +133,8 @@ def plan_for(tier: str, seed: int, i: int) -> dict:
             step: Dict[str, Any] = {"op": "configure", "proto": rng.randrange(len(protos))}
             if rng.random() < 0.3:
                 step["context_name"] = gen.gen_bytes(rng, rng.choice([0, 3, 8]))
+            if xrng.random() < 0.3:
+                step["context_engine"] = xrng.choice([b"", b"\x80\x00\x1f\x88\x04proxied-ctx", gen.gen_bytes(xrng, 9)])
             ops.insert(rng.randrange(0, len(ops) + 1), step)
         ops.append({"op": "get", "oid": _gen_oid(rng, base)})
     clock = gen.gen_clock(rng)
@@ -166,7 +174,7 @@ def execute(plan: dict) -> dict:
     agent.report_ctx_echo = bool(plan.get("ctx_echo"))
     if plan.get("ctx_other"):
         agent.report_ctx_other = b"\x80\x00\x1f\x88\x04proxied-context"
-    cur = {"proto": proto, "context_name": plan["context_name"]}
+    cur = {"proto": proto, "context_name": plan["context_name"], "engine_id_cfg": plan["engine_id_cfg"]}
     kw = {}
     if version == "v3":
         kw = {"context_name": plan["context_name"], "engine_id": plan["engine_id_cfg"]}
@@ -191,9 +199,13 @@ def execute(plan: dict) -> dict:
             from puresnmp.api.raw import Context
             newp = protos[op["proto"] % len(protos)]
             kwc: Dict[str, Any] = {"credentials": make_credentials(newp)}
-            if "context_name" in op:
-                kwc["context"] = Context(plan["engine_id_cfg"], bytes(op["context_name"]))
-                cur["context_name"] = bytes(op["context_name"])
+            if "context_name" in op or "context_engine" in op:
+                if "context_engine" in op:
+                    cur["engine_id_cfg"] = bytes(op["context_engine"])
+                if "context_name" in op:
+                    cur["context_name"] = bytes(op["context_name"])
+                kwc["context"] = Context(cur["engine_id_cfg"], cur["context_name"])
+                probes["context_changed"] = 1
             client.configure(**kwc)
             if newp["version"] != cur["proto"]["version"]:
                 disco = {}
@@ -214,6 +226,10 @@ def execute(plan: dict) -> dict:
         orig_read = w.clock.read
 
         async def one() -> Any:
+            if op["op"] == "copy":
+                from ..world import OID as _OID
+                val = await client.get(_OID(tuple(op["from"])))
+                return await client.set(_OID(tuple(op["to"])), val)
             return await scen.do_op(client, op)
         # remember the clock values read during this operation
         import puresnmp.util as _putil
@@ -237,6 +253,7 @@ def execute(plan: dict) -> dict:
             break
         returned = set()
         first_data = True
+        copy_value: Any = ("null", None)
         for call, areq in zip(calls, areqs):
             pkt = call["packet"]
             n_checked += 1
@@ -292,14 +309,18 @@ def execute(plan: dict) -> dict:
                         fail("security-parameters", "%s: privacy parameters without privacy" % where)
                         continue
                     scoped = dec["scoped"]
-                want_ctx = plan["engine_id_cfg"] or plan["agent_engine_id"]
+                want_ctx = cur["engine_id_cfg"] or plan["agent_engine_id"]
                 if scoped["ctx_engine"] != want_ctx or scoped["ctx_name"] != cur["context_name"]:
                     fail("context", "%s: context %r/%r" % (where, scoped["ctx_engine"], scoped["ctx_name"]))
                 pdu = scoped["pdu"]
             if pdu["rid"] not in ids_ok:
                 fail("request-id", "%s: request-id %d is not a clock reading (%s)" % (where, pdu["rid"], sorted(ids_ok)[:4]))
             rid_lens.add(max(1, (pdu["rid"].bit_length() + 8) // 8))
+            if op["op"] == "copy" and not first_data:
+                op = dict(op, _value=copy_value)
             _check_pdu(k, op, pdu, first_data, returned, fail, where, probes)
+            if op["op"] == "copy" and first_data and areq.get("resp_pdu") and areq["resp_pdu"]["vbs"]:
+                copy_value = areq["resp_pdu"]["vbs"][0][1]
             first_data = False
             resp = areq.get("resp_pdu")
             if resp:
@@ -335,6 +356,17 @@ def _check_pdu(k: int, op: dict, pdu: dict, first: bool, returned: set, fail: An
                probes: Dict[str, int]) -> None:
     kind = op["op"]
     null = ("null", None)
+    if kind == "copy":
+        probes["read_then_write"] = 1
+        if first:
+            if pdu["tag"] != S.PDU_GET or [(o, tuple(v)) for o, v in pdu["vbs"]] != [(tuple(op["from"]), null)]:
+                fail("bindings", "%s: the read half of a read-modify-write is not GET %s" % (where, S.oid_str(tuple(op["from"]))))
+        else:
+            want_v = tuple(op["_value"])
+            if pdu["tag"] != S.PDU_SET or [(o, tuple(v)) for o, v in pdu["vbs"]] != [(tuple(op["to"]), want_v)]:
+                fail("bindings", "%s: SET of a value returned by an earlier GET: bindings %r, intended %r" % (
+                    where, [(o, tuple(v)) for o, v in pdu["vbs"]][:2], [(tuple(op["to"]), want_v)]))
+        return
     want_tag = {"get": S.PDU_GET, "multiget": S.PDU_GET, "getnext": S.PDU_GETNEXT, "multigetnext": S.PDU_GETNEXT,
                 "set": S.PDU_SET, "multiset": S.PDU_SET, "bulkget": S.PDU_BULK, "walk": S.PDU_GETNEXT,
                 "multiwalk": S.PDU_GETNEXT, "table": S.PDU_GETNEXT, "bulkwalk": S.PDU_BULK, "bulktable": S.PDU_BULK}[kind]
